@@ -15,7 +15,7 @@ TECHNIQUE = ("runtime reference-model monitor + call-history spy: Legendre-vecto
              "closed forms on infinite ranges, component-wise reference rule for tuple outputs")
 LEVEL_TEXT = ("Held on every generated call of the run: n in 1..250 x intervals of both orientations, lengths 1e-3..1e3, offset/length <= 30 x "
               "limits as python floats / ints / 0-dim / 1-element tensors and mixtures x float64/float32 x scalar, vector and tuple outputs; "
-              "P_0..P_{2n-1} of the mapped variable integrate to (xu-xl)*[1,0,..] within 2000*eps*(1+k*c)*|xu-xl| while P_2n shows the Gauss error of "
+              "P_0..P_{2n-1} of the mapped variable integrate to (xu-xl)*[1,0,..] within 5000*eps*(1+k*c)*|xu-xl| while P_2n shows the Gauss error of "
               "exactly n points; the integrand is evaluated at exactly the n mapped scipy nodes; linearity, limit swap and additivity for "
               "polynomials with exact rational integrals; Gaussian/exponential/Lorentzian/sech^2 integrands on half- and doubly-infinite "
               "ranges against closed forms.")
@@ -29,7 +29,8 @@ MIN_NONTRIVIAL = {"quick": 700, "thorough": 9000}
 ASSUMPTIONS = [
     "finite intervals: length 1e-3..1e3, max(|xl|,|xu|)/|xu-xl| <= 30 (float64) / <= 1 (float32), xl != xu",
     "float32 legvec cases use n <= 16 (the node rounding error k*eps32*c must stay 20x below the degree-2n signal 0.15)",
-    "tolerance for exact polynomial entries: 2000*eps(result dtype)*(1+k*c)*|xu-xl| (largest seen 17*eps*(1+k*c)*|xu-xl|); "
+    "tolerance for exact polynomial entries: C*eps(result dtype)*(1+k*c)*|xu-xl|, c = max(|xl|,|xu|)/|xu-xl|, C = 5000 for float64 (largest seen 18) "
+    "and 1000 for float32 (largest seen 3.5); "
     "degree-2n entry must deviate by >= half of its reference value (>= 0.039*|xu-xl| for n <= 250)",
     "abscissae: sorted spy log equals the mapped scipy nodes within 200*eps*max(|xl|,|xu|) (largest seen 1.02*eps*max|x|); the first call is "
     "the dtype-probing call at xl and is not an abscissa",
@@ -254,7 +255,7 @@ def run_legvec(desc, obs):
     eps = torch.finfo(y.dtype).eps
     yv = as_flat64(y) / L
     ks = torch.arange(m, dtype=torch.float64)
-    tol = CTOL * eps * (1 + ks * c)
+    tol = (5000.0 if y.dtype == torch.float64 else 1000.0) * eps * (1 + ks * c)
     want = torch.zeros(m, dtype=torch.float64)
     want[0] = 1.0
     err = (yv - want).abs()
@@ -400,12 +401,15 @@ def run_poly(desc, obs):
         obs.check(e <= tol, "poly:linear:" + key, "quad(a f + b g) - (a quad(f) + b quad(g)) = %.3e (tolerance %.3e)" % (e, tol), n=n)
         worst = max(worst, e / tol)
     ok, Isw = call_quad(obs, "poly:" + key + ":swapped", f, *make_limits(_swap_form(form), xu, xl, dt), n=n)
-    if ok:
+    if ok and obs.check(isinstance(Isw, torch.Tensor) and Isw.numel() == 1 and Isw.dtype.is_floating_point, "poly:shape:" + key + ":swapped",
+                        "result is %r" % (Isw,)):
+        # with mixed limit forms the swapped call may run in another precision (the dtype follows the abscissae)
+        tol_sw = tol_f * max(eps, torch.finfo(Isw.dtype).eps) / eps
         e = abs(float(Isw) + float(If))
         obs.count("poly_swap_checked")
-        obs.check(e <= tol_f, "poly:swap:" + key, "quad over [xu,xl] = %.15g, quad over [xl,xu] = %.15g: not opposite (tolerance %.3e)" %
-                  (float(Isw), float(If), tol_f), n=n)
-        worst = max(worst, e / tol_f)
+        obs.check(e <= tol_sw, "poly:swap:" + key, "quad over [xu,xl] = %.15g, quad over [xl,xu] = %.15g: not opposite (tolerance %.3e)" %
+                  (float(Isw), float(If), tol_sw), n=n)
+        worst = max(worst, e / tol_sw)
     fa, fb = form.split("_") if "_" in form else (form, form)
     ok, I1 = call_quad(obs, "poly:" + key + ":sub1", f, *make_limits(fa + "_" + fb, xl, xm, dt), n=n)
     ok2, I2 = call_quad(obs, "poly:" + key + ":sub2", f, *make_limits(fa + "_" + fb, xm, xu, dt), n=n)
